@@ -415,7 +415,7 @@ def run(ctx):
             elif cfg.get("spell") == "dslash":
                 src = d + os.sep + os.sep + "src.aoe2scenario"
             if cfg["dest"] == "same":
-                dest = src
+                dest = "".join([src[:1], src[1:]])      # an EQUAL path string, not the same str object (what a caller builds)
             elif nat and nat[0] == "nodir":
                 dest = os.path.join(d, "missing_dir", "out.aoe2scenario")
             elif nat and nat[0] == "isdir":
